@@ -323,7 +323,6 @@ fn random(args: &Args) {
 }
 
 fn main() {
-    h_runtime::util::quiet_panics();
     let (mode, args) = Args::from_env();
     match mode.as_str() {
         "replay" => replay(&args),
